@@ -7,7 +7,7 @@ impl World {
     /// has put on the wire so far, whether the frame is a DHCPACK the statement allows
     /// the client to configure from.
     fn classify(&self, frame: &[u8]) -> Seen {
-        let not = |r: &'static str| Seen { mtype: None, verdict: Err(r) };
+        let not = |r: &'static str| Seen { mtype: None, verdict: Err(r), offer_ok: false };
         let Ok(eth) = decode_eth(frame) else { return not("not-dhcp") };
         if eth.ethertype != ETH_IPV4 {
             return not("not-dhcp");
@@ -22,7 +22,7 @@ impl World {
         let body = &ip.payload[8..];
         let Ok(m) = decode_dhcp(body) else { return not("not-dhcp") };
         let mtype = m.msg_type();
-        let bad = |r: &'static str| Seen { mtype, verdict: Err(r) };
+        let bad = |r: &'static str| Seen { mtype, verdict: Err(r), offer_ok: false };
         if eth.dst != MAC_BROADCAST && eth.dst != self.mac {
             return bad("eth-dst");
         }
@@ -38,6 +38,11 @@ impl World {
         if m.op != 2 || m.htype != 1 || m.hlen != 6 {
             return bad("not-bootreply");
         }
+        if mtype == Some(OFFER) {
+            // an OFFER the client may legitimately act upon (moves it to its requesting phase)
+            let offer_ok = self.sent_any && m.xid == self.last_xid && m.chaddr[..6] == self.mac && m.opt4(OPT_SERVER_ID).is_some() && v4_unicast(m.yiaddr);
+            return Seen { mtype, verdict: Err("not-ack"), offer_ok };
+        }
         if mtype != Some(ACK) {
             return bad("not-ack");
         }
@@ -49,6 +54,11 @@ impl World {
         }
         if m.chaddr[..6] != self.mac {
             return bad("chaddr");
+        }
+        // requesting/renewing phase: the client's latest message is a REQUEST, or an acceptable OFFER
+        // has reached it since its latest message (smoltcp acts on OFFER and ACK delivered in one poll)
+        if !(self.last_type == REQUEST || self.offer_seen) {
+            return bad("not-requesting");
         }
         if m.opt4(OPT_SERVER_ID).is_none() {
             return bad(if m.truncated { "truncated-options" } else { "no-server-id" });
@@ -67,6 +77,7 @@ impl World {
         }
         Seen {
             mtype,
+            offer_ok: false,
             verdict: Ok(AckInfo {
                 yi: m.yiaddr,
                 prefix,
@@ -75,7 +86,9 @@ impl World {
                 t2: m.opt_u32(OPT_T2),
                 routers: m.addr_list(OPT_ROUTER),
                 dns: m.addr_list(OPT_DNS),
-                ambiguous: m.truncated || m.no_end,
+                // also ambiguous: an IP source address that is not unicast (0.0.0.0 passes smoltcp's IPv4
+                // ingress filter; whether a client should act on such a datagram is not for this statement to say)
+                ambiguous: m.truncated || m.no_end || !v4_unicast(ip.src),
             }),
         }
     }
@@ -114,15 +127,28 @@ impl World {
                 } else {
                     self.node.iface.routes_mut().remove_default_ipv4_route();
                 }
+                self.applied = Some((*addr, *prefix, *router));
             }
             Ev::Deconf => {
                 self.node.iface.update_ip_addrs(|addrs| addrs.clear());
                 self.node.iface.routes_mut().remove_default_ipv4_route();
+                self.applied = None;
             }
         }
     }
 
     // -------------------------------------------------------------- lease model helpers
+
+    /// Scenario class for failure keys: "neighbor-known" when, for the whole current lease, the next hop
+    /// towards the server was announced to the client before every poll (so the client never had to
+    /// resolve it and was never silenced by the interface), "neighbor-unresolved" otherwise.
+    fn nbr(&self) -> &'static str {
+        if self.lease_gate_free && self.now >= self.gate_until {
+            "neighbor-known"
+        } else {
+            "neighbor-unresolved"
+        }
+    }
 
     fn start_lease(&mut self, a: &AckInfo, e_hi: i64, clean_ok: bool) {
         self.lease_sched = true;
@@ -139,14 +165,9 @@ impl World {
                 (Some(t1), Some(t2)) => (t1 as i64) < t2 as i64 && (t2 as i64) * SEC < a.lease_us,
                 _ => false,
             };
-        self.lease_clean = clean_ok
-            && !a.ambiguous
-            && self.arp_policy == ArpPolicy::Answer
-            && self.routable
-            && !self.src_varied
-            && self.now >= self.gate_suspect_until
-            && a.yi == self.plan.yi
-            && a.prefix == self.plan.prefix;
+        self.lease_clean = clean_ok && !a.ambiguous && self.routable;
+        // no leftover of an earlier neighbour wait (the caller updates this for the current poll afterwards)
+        self.lease_gate_free = self.now >= self.gate_until;
         self.cur = Some(a.clone());
     }
 
@@ -203,6 +224,23 @@ impl World {
         self.now = t_new;
         let now = self.now;
 
+        // ---- proactive environment: the next hop towards the server announces itself by ARP before every
+        // poll, so the client never has to resolve it (and the interface never silences the socket)
+        let mut announced = false;
+        if self.arp_policy == ArpPolicy::Proactive && !self.src_varied {
+            if let Some((addr, prefix, router)) = self.applied {
+                let m = u32::from_be_bytes(prefix_mask(prefix));
+                let on_link = |x: [u8; 4]| prefix < 32 && (u32::from_be_bytes(x) & m) == (u32::from_be_bytes(addr) & m);
+                let nh = if on_link(self.plan.srv_ip) { Some(self.plan.srv_ip) } else { router.filter(|r| on_link(*r)) };
+                if let Some(nh) = nh {
+                    let r = Arp { op: 1, sha: self.smac, spa: nh, tha: [0; 6], tpa: addr };
+                    let fr = Eth { dst: MAC_BROADCAST, src: self.smac, ethertype: ETH_ARP, payload: r.encode() }.encode();
+                    self.node.inject(fr);
+                    announced = true;
+                }
+            }
+        }
+
         // ---- deliver what is due, classifying each frame at delivery time
         let mut batch: Vec<Seen> = vec![];
         let mut rest = vec![];
@@ -213,6 +251,9 @@ impl World {
                 continue;
             }
             let seen = self.classify(&frame);
+            if seen.offer_ok {
+                self.offer_seen = true;
+            }
             if seen.mtype.is_some() || !matches!(seen.verdict, Err("not-dhcp")) {
                 delivered_dhcp += 1;
                 match &seen.verdict {
@@ -278,12 +319,15 @@ impl World {
                 ctx.note(|| format!("t={} event Configured {}/{} router={:?} dns={}", now, ip_s(*addr), prefix, router.map(ip_s), dns.len()));
                 ctx.label(if was_configured { "event:configured-again" } else { "event:configured" });
                 if cands.is_empty() {
+                    // the delivered message that passed most of the checks names the reason
+                    const ORDER: &[&str] = &[
+                        "not-dhcp", "eth-dst", "udp-checksum", "wrong-port", "bad-cookie", "not-bootreply", "not-ack", "before-any-request", "xid",
+                        "chaddr", "not-requesting", "no-server-id", "truncated-options", "mask-absent", "mask-noncontiguous", "yiaddr-not-unicast",
+                    ];
                     let reason = batch
                         .iter()
-                        .rev()
-                        .find(|s| s.mtype == Some(ACK))
-                        .or(batch.iter().rev().find(|s| s.mtype.is_some()))
-                        .map(|s| *s.verdict.as_ref().err().unwrap_or(&"?"))
+                        .filter_map(|s| s.verdict.as_ref().err().copied())
+                        .max_by_key(|r| ORDER.iter().position(|o| o == r).unwrap_or(0))
                         .unwrap_or("no-reply-delivered");
                     rep(ctx, Fail::new(
                         format!("configured-without-valid-ack:{}", reason),
@@ -292,9 +336,10 @@ impl World {
                             now, ip_s(*addr), prefix, batch.len(), reason
                         ),
                     ))?;
-                    // known finding: follow the implementation so that the search can go on
-                    let a = AckInfo { yi: *addr, prefix: *prefix, lease_us: i64::MAX / 4, t1: None, t2: None, routers: None, dns: None, ambiguous: true };
-                    self.start_lease(&a, i64::MAX / 2, false);
+                    // known finding: the model cannot know which lease the client believes in; end the case here
+                    self.apply(&ev);
+                    self.abort = true;
+                    return Ok(());
                 } else {
                     let matching: Vec<&AckInfo> = cands.iter().filter(|a| a.yi == *addr && a.prefix == *prefix).collect();
                     if matching.is_empty() {
@@ -347,6 +392,7 @@ impl World {
                     // clause 3, liveness half: a lease that ran out under an ideal schedule must have seen a renewal attempt
                     if now >= old_e
                         && self.lease_clean
+                        && self.lease_gate_free
                         && self.lease_ordered
                         && self.cur.as_ref().map_or(false, |a| a.lease_us >= SEC)
                         && !self.lease_renew_seen
@@ -369,8 +415,9 @@ impl World {
                     && !self.lease_rebind_seen
                 {
                     ctx.label("violation-seen:no-rebind-attempt");
+                    let key = format!("no-rebind-attempt-before-expiry:{}", if self.lease_gate_free { "neighbor-known" } else { "neighbor-unresolved" });
                     rep(ctx, Fail::new(
-                        "no-rebind-attempt-before-expiry",
+                        key,
                         format!(
                             "lease acquired at t={}us ran out at t={}us; every poll in between was made at or before the instant named by poll_at, yet no broadcast DHCPREQUEST (rebind) was ever transmitted",
                             self.lease_t0, old_e
@@ -400,10 +447,22 @@ impl World {
         }
         self.apply(&ev);
 
+        // ---- could the interface have put the socket into its neighbour wait during this poll?
+        // (only used to name the scenario class in failure keys, never for a verdict)
+        if (was_configured || self.configured) && !announced {
+            let first_attempt_later = !was_configured
+                && self.cur.as_ref().map_or(false, |a| a.t1 != Some(0) && a.t2 != Some(0) && a.lease_us >= 2);
+            if !first_attempt_later {
+                self.gate_until = now + SEC + 1;
+                self.lease_gate_free = false;
+            }
+        }
+
         if self.configured && now >= self.e_hi {
             ctx.label("violation-seen:lease-overrun");
+            let key = format!("lease-overrun:{}", self.nbr());
             rep(ctx, Fail::new(
-                "lease-overrun",
+                key,
                 format!(
                     "Interface::poll at t={}us is at/after the expiry {}us of the lease granted by the most recent valid ACK (acquired t={}us, lease {}us), yet dhcpv4::Socket::poll() produced no Deconfigured: the address is still reported as configured",
                     now,
@@ -425,8 +484,9 @@ impl World {
             let ok = matches!(pa, Some(x) if x <= self.e_hi);
             if !ok {
                 ctx.label("violation-seen:poll_at-after-expiry");
+                let key = format!("poll_at-after-expiry:{}", self.nbr());
                 rep(ctx, Fail::new(
-                    "poll_at-after-expiry",
+                    key,
                     format!(
                         "while configured at t={}us Interface::poll_at returned {:?} but the lease expires at {}us (acquired t={}us)",
                         now, pa, self.e_hi, self.lease_t0
@@ -460,8 +520,11 @@ impl World {
                 return Ok(());
             }
             ctx.label("tx:arp-request");
+            // the client lacked a neighbour entry: the interface silences the socket for up to 1 s
+            self.gate_until = now + SEC + 1;
+            self.lease_gate_free = false;
             let answer = match self.arp_policy {
-                ArpPolicy::Answer => true,
+                ArpPolicy::Answer | ArpPolicy::Proactive => true,
                 ArpPolicy::Never => false,
                 ArpPolicy::Sometimes => src.bool(),
             };
@@ -471,7 +534,6 @@ impl World {
                 let fr = Eth { dst: a.sha, src: self.smac, ethertype: ETH_ARP, payload: r.encode() }.encode();
                 self.queue.push((0, fr, format!("ARP reply {} is-at server", ip_s(a.tpa))));
             } else {
-                self.gate_suspect_until = now + 2 * SEC;
                 self.lease_clean = false;
                 if self.configured {
                     ctx.label("arp unanswered during renew");
@@ -496,6 +558,8 @@ impl World {
         ctx.note(|| format!("t={} client {} xid={:#010x} ciaddr={} -> {}", now, type_name(mtype), cm.xid, ip_s(cm.ciaddr), ip_s(cm.ip_dst)));
         self.sent_any = true;
         self.last_xid = cm.xid;
+        self.last_type = mtype;
+        self.offer_seen = false;
         if self.xids.last() != Some(&cm.xid) {
             self.xids.push(cm.xid);
         }
@@ -520,6 +584,23 @@ impl World {
                 self.lease_renew_seen = true;
             } else {
                 ctx.label("rebind sent");
+                // under an ideal schedule with the next hop known, T1 < T2 means a unicast renewal went out first
+                if self.configured
+                    && self.lease_clean
+                    && self.lease_gate_free
+                    && self.lease_ordered
+                    && !self.lease_renew_seen
+                    && !self.lease_rebind_seen
+                    && self.cur.as_ref().map_or(false, |a| a.lease_us >= SEC)
+                {
+                    rep(ctx, Fail::new(
+                        "rebind-without-renew",
+                        format!(
+                            "broadcast rebind REQUEST at t={}us is the first renewal message of the lease acquired at t={}us although every poll was made on schedule and the server's next hop was known: no unicast renewal was attempted before rebinding",
+                            now, self.lease_t0
+                        ),
+                    ))?;
+                }
                 self.lease_rebind_seen = true;
             }
         } else {
